@@ -13,7 +13,7 @@ import (
 
 // localEnv resolves names of local variables (Allocs by Comment) of all active frames, innermost first.
 func (x *Exec) localEnv(st *State) *Env {
-	env := &Env{x: x, st: st, old: x.init, vars: map[string]Value{}, cf: x.CF}
+	env := &Env{x: x, st: st, old: x.init, vars: map[string]Value{}, cf: x.CF, alias: x.Alias}
 	env.locals = func(name string) (Value, bool) {
 		want := name
 		ord := -1
@@ -87,7 +87,6 @@ func (x *Exec) loopContract(fn *ssa.Function, l *Loop) *LoopContract {
 // loopEnv: environment at a loop head: locals by name, `it` for range loops.
 func (x *Exec) loopEnv(st *State, fn *ssa.Function, l *Loop) *Env {
 	env := x.localEnv(st)
-	env.alias = x.Alias
 	fr := st.top()
 	if l.RangeIdx != nil {
 		if pv, ok := fr.Regs[l.RangeIdx]; ok {
